@@ -297,6 +297,10 @@ func genC06(g *Rng, tier string, emit func(Op)) {
 		s := buildSession(g, specs, randSecret(g), false)
 		emit(listOp(s.keys, s.trees, s.ctx, s.nonce, false, nil, fmt.Sprintf("multi-credential-commitments-%d", len(shape)), "accept"))
 	}
+	// a commitment that is no group element, with the challenge that counts it in as (U, 0)
+	for _, o := range forgedNonunitUOps(g, keys[0], g.bits(256), g.bits(80), false, "C06/forged-nonunit-U") {
+		emit(o)
+	}
 	// the legacy keyshare protocol (the server's answer carries P = R0^share): the holder strips
 	// the keyshare factor from its proof, merges the server's answer and sends its builder's
 	// commitment message; the honest run ends with a credential over (both shares, attributes)
